@@ -121,6 +121,80 @@ def suffix_fact():
     return found[0]
 
 
+def is_none_test(e):
+    """`<name> is None` -> name"""
+    if isinstance(e, ast.Compare) and len(e.ops) == 1 and isinstance(e.ops[0], ast.Is) and isinstance(e.left, ast.Name) \
+            and isinstance(e.comparators[0], ast.Constant) and e.comparators[0].value is None:
+        return e.left.id
+    return None
+
+
+def skip_fact():
+    """changed_notebooks: which `continue` tests guard the yield inside `for entry in diff`"""
+    rel = 'nbdime/gitfiles.py'
+    f = func(parse(rel), 'changed_notebooks', rel)
+    loops = [n for n in f.body if isinstance(n, ast.For)]
+    if len(loops) != 1:
+        raise GenError('gitfiles.changed_notebooks: expected exactly one top-level for loop')
+    loop = loops[0]
+    calls = {}
+    for st in loop.body:
+        if isinstance(st, ast.Assign) and len(st.targets) == 1 and isinstance(st.targets[0], ast.Name) and is_call_kw(st.value, '_get_diff_entry_stream'):
+            side = dotted(st.value.args[0]) if st.value.args else None
+            calls[st.targets[0].id] = side
+    sides = {v.split('.')[-1]: k for k, v in calls.items() if v}
+    if set(sides) != {'a_path', 'b_path'}:
+        raise GenError('gitfiles.changed_notebooks: expected one _get_diff_entry_stream call per side, found %r' % calls)
+    va, vb = sides['a_path'], sides['b_path']
+    tests = []
+    for st in loop.body:
+        if isinstance(st, ast.If):
+            if not (len(st.body) == 1 and isinstance(st.body[0], ast.Continue) and not st.orelse):
+                raise GenError('gitfiles.changed_notebooks: unrecognised if-statement in the loop: ' + ast.unparse(st)[:200])
+            n = is_none_test(st.test)
+            if n is not None: tests.append(frozenset([n]))
+            elif isinstance(st.test, ast.BoolOp) and isinstance(st.test.op, ast.And) and all(is_none_test(v) for v in st.test.values):
+                tests.append(('and', frozenset(is_none_test(v) for v in st.test.values)))
+            else:
+                raise GenError('gitfiles.changed_notebooks: unrecognised skip test: ' + ast.unparse(st.test))
+    if tests == [frozenset([va]), frozenset([vb])]:
+        # the first `continue` must precede the second _get_diff_entry_stream call (the model evaluates the base side first)
+        order = [type(st).__name__ for st in loop.body if isinstance(st, (ast.Assign, ast.If))]
+        if order[:4] != ['Assign', 'If', 'Assign', 'If']:
+            raise GenError('gitfiles.changed_notebooks: statement order in the loop not recognised: %r' % order)
+        ys = [st for st in loop.body if isinstance(st, ast.Expr) and isinstance(st.value, ast.Yield)]
+        if len(ys) != 1 or ast.unparse(ys[0].value.value).replace(' ', '') != '(%s,%s)' % (va, vb):
+            raise GenError('gitfiles.changed_notebooks: yield shape not recognised')
+        return False
+    if tests == [('and', frozenset([va, vb]))]:
+        return True      # the yielded expression is compared by the correspondence check (None sides become the null file)
+    raise GenError('gitfiles.changed_notebooks: skip tests not recognised: %r' % (tests,))
+
+
+def is_call_kw(e, name):
+    return isinstance(e, ast.Call) and dotted(e.func) == name
+
+
+def filter_try_fact():
+    """_get_diff_entry_stream: is apply_possible_filter(path) called inside the try whose handler catches IOError/OSError?"""
+    rel = 'nbdime/gitfiles.py'
+    f = func(parse(rel), '_get_diff_entry_stream', rel)
+    calls = [n for n in ast.walk(f) if isinstance(n, ast.Call) and dotted(n.func) == 'apply_possible_filter']
+    if len(calls) != 1:
+        raise GenError('gitfiles._get_diff_entry_stream: expected exactly one apply_possible_filter call')
+    tries = [n for n in ast.walk(f) if isinstance(n, ast.Try)]
+    io_tries = []
+    for t in tries:
+        for h in t.handlers:
+            names = [dotted(h.type)] if h.type is not None and not isinstance(h.type, ast.Tuple) else [dotted(x) for x in (h.type.elts if h.type is not None else [])]
+            if any(n in ('IOError', 'OSError', 'FileNotFoundError', 'EnvironmentError') for n in names):
+                io_tries.append(t)
+    if len(io_tries) != 1:
+        raise GenError('gitfiles._get_diff_entry_stream: expected exactly one try/except IOError')
+    inside = any(c is n for st in io_tries[0].body for n in ast.walk(st) for c in calls)
+    return inside
+
+
 def allpaths_fact():
     """resolve_diff_args: what the branch `base and remote` / `not is_gitref(base)` assigns to base."""
     rel = 'nbdime/args.py'
@@ -154,6 +228,8 @@ def main():
     saved, fin = pushd_facts()
     suf = suffix_fact()
     ap = allpaths_fact()
+    skip_both = skip_fact()
+    filt_try = filter_try_fact()
     text = '''(* GENERATED by tools/gen/gen_gitrefs.py from /repo -- do not edit *)
 From Coq Require Import List NArith.
 From NB Require Import Base.Json.
@@ -164,8 +240,10 @@ Definition src_facts : facts := {|
   f_pushd_saves := %s;
   f_pushd_finally := %s;
   f_nb_suffix := %s;
-  f_allpaths_base := %s |}.
-''' % (saved, coq_bool(fin), '[' + '; '.join('%d' % ord(c) for c in suf) + ']%N', ap)
+  f_allpaths_base := %s;
+  f_skip_both := %s;
+  f_filter_in_try := %s |}.
+''' % (saved, coq_bool(fin), '[' + '; '.join('%d' % ord(c) for c in suf) + ']%N', ap, coq_bool(skip_both), coq_bool(filt_try))
     write_if_changed('GitRefsFacts.v', text)
 
 
